@@ -14,3 +14,5 @@ def run(ck):
     region.r6_5_touching_merges(ck, P)
     region.r7_4_compaction_cursors(ck, P)    # C07-R4: a clamp written through the input cursor leaves a malformed rectangle in the result
     region.r_equality_sides(ck, P, 'C06-R6')
+    region.r7_5_independent_clamps(ck, P)        # C07-R5: a clamp that depends on the other axis leaves a malformed (x1 > x2 / y1 > y2) box
+    region.r7_8_range_test_siblings(ck, P)       # C07-R8
